@@ -2,6 +2,8 @@
 conformance legs drive.  Everything is built from /repo's working tree at call time."""
 from __future__ import annotations
 
+import numpy as np
+
 import math
 
 
@@ -197,6 +199,8 @@ def entries():
     add("Tanh", "transform", lambda: NL.Tanh(), _rn(3), flags={"inv", "noparams"}, y=_ru(3, lo=-0.9, hi=0.9))
     add("LogTanh", "transform", lambda: NL.LogTanh(cut_point=1), (lambda n, g: 2.0 * torch.randn(n, 3, generator=g)), flags={"inv", "noparams"})
     add("LeakyReLU", "transform", lambda: NL.LeakyReLU(0.1), _rn(3), flags={"inv", "noparams"})
+    add("LeakyReLU/slope>1", "transform", lambda: NL.LeakyReLU(2.5), _rn(3), flags={"inv", "noparams"})
+    add("Sigmoid/numpy-temperature", "transform", lambda: NL.Sigmoid(temperature=1.0 / np.sqrt(2.0)), _rn(3), flags={"inv", "noparams"}, y=_ru(3))
     add("Sigmoid", "transform", lambda: NL.Sigmoid(temperature=0.7), _rn(3), flags={"inv", "noparams"}, y=_ru(3), build_alt=lambda: NL.Sigmoid(temperature=1.0))
     add("Sigmoid/learned", "transform", lambda: NL.Sigmoid(temperature=1.3, learn_temperature=True), _rn(3), flags={"inv"}, y=_ru(3))
     add("Logit", "transform", lambda: NL.Logit(temperature=0.7), _ru(3), flags={"inv", "bounded01", "noparams"}, y=_rn(3))
